@@ -89,7 +89,8 @@ class Naming:
     def eid(self, i: int, role: str = 'P') -> str:
         # ids within one scheme sort by (prefix, index) in an order unrelated to listing order
         pref = ID_PREFIX[(self.scheme // len(NODE_NAMES)) % len(ID_PREFIX)][role]
-        idx = [5, 3, 8, 1, 9, 2, 7, 4, 6, 0, 11, 10][int(i) % 12]
+        i = int(i)
+        idx = [5, 3, 8, 1, 9, 2, 7, 4, 6, 0, 11, 10][i] if i < 12 else 100 + i
         return f'{pref}{idx}'
 
 
